@@ -13,6 +13,3 @@ import (
 func VerifWriteTemplate(path, tmpl string, data interface{}, mode os.FileMode) error {
 	return internal.WriteTemplate(path, tmpl, data, mode)
 }
-
-func VerifNVRAM(names ...string) ([]string, error) { return internal.NVRAM(names...) }
-func VerifSetNVRAM(vars ...string) error            { return internal.SetNVRAM(vars...) }
